@@ -218,13 +218,18 @@ func runC10(c c10Case) vh.Result {
 	// asserted. It is filtered from both sides of every comparison.
 	notInitial := func(raw string) bool { return raw != xmpp.InitialPresence }
 	checkQueue := func(step int, op c10Op) {
-		got := clientQueue()
 		var want []string
 		for _, h := range queue {
 			if notInitial(h.payload) {
 				want = append(want, h.payload)
 			}
 		}
+		// an <a/> that acknowledges everything leaves no trace on the wire: give the client time to process it
+		// (stable-condition poll; the comparison below reports what is left if it never converges)
+		waitFor(vh.Margin(3*time.Second), func() bool {
+			return strings.Join(clientQueue(), "\n") == strings.Join(want, "\n")
+		})
+		got := clientQueue()
 		if len(got) != len(want) {
 			key := "queue-differs"
 			for _, g := range got {
